@@ -26,6 +26,7 @@ func init() {
 			{ID: "C15.R3", Min: 5, Doc: "overrides: every exported baseRoute method that passes baseConfigExtender is redeclared on *ConsistentHashing passing consistentHashingConfigExtender", Run: c15r3},
 			{ID: "C15.R4", Min: 4, Doc: "ring construction constants: replica count 100; MD5 first two bytes, binary.BigEndian; key pieces; truth table of hashRing.Less against the lexicographic order (Position, Hostname, Instance)", Run: c15r4},
 			{ID: "C15.R6", Min: 1, Doc: "address splitting: an address with exactly two ':' is split into host:port (first two components joined by ':') and instance (third component); the ring key uses the host part before the first ':'", Run: c15r6},
+			{ID: "C15.R7", Min: 2, Doc: "the configured instance survives reconnects: the relay loop re-dials with the stored, instance-less Destination.Addr, so outside the constructor every store into Destination.Instance takes the instance of the same addrInstanceSplit call as the Addr stored with it, and is controlled by the edge on which the split address differs from the current Destination.Addr (a reconnect to the unchanged address must not touch it)", Run: c15r7},
 			{ID: "C15.R5", Min: 2, Doc: "lookup: sort.Search over len(Ring) with predicate Ring[i].Position >= position, result % len(Ring), returns Ring[index].DestinationIndex; Dispatch indexes Dests() with it", Run: c15r5},
 		},
 	})
@@ -588,4 +589,93 @@ func c15r6(c *Check) {
 		}
 	})
 	c.Judge(count2 && split && join02 && inst2, "destination.addrInstanceSplit host:port:instance", c.AtFn(fn), "two ':' → (components[0:2] joined by ':', components[2])", "host:port:instance addresses are not split into (host:port, instance): the ring key or the dial address is wrong")
+}
+
+func c15r7(c *Check) {
+	instF := c.P.Field("destination", "Destination", "Instance")
+	addrF := c.P.Field("destination", "Destination", "Addr")
+	nSplit := modPath + "/destination.addrInstanceSplit"
+	n := 0
+	for _, fn := range c.P.Funcs {
+		fn := fn
+		allInstrs(fn, func(in ssa.Instruction) {
+			st, ok := in.(*ssa.Store)
+			if !ok {
+				return
+			}
+			fa, ok := st.Addr.(*ssa.FieldAddr)
+			if !ok || fieldOfAddr(fa) != instF {
+				return
+			}
+			n++
+			key := FuncName(fn) + " store into Destination.Instance"
+			// the object under construction (composite literal in New / Snapshot copies) is free to set it
+			if al, isAlloc := fa.X.(*ssa.Alloc); isAlloc && al.Heap {
+				fromSplit := false
+				if ex, ok := st.Val.(*ssa.Extract); ok && ex.Index == 1 {
+					if call, ok := ex.Tuple.(*ssa.Call); ok && calleeName(call.Common()) == nSplit {
+						fromSplit = true
+					}
+				}
+				_, _, isCopy2 := fieldLoad(st.Val)
+				c.Judge(fromSplit || isCopy2, key+" (new object)", c.At(in), "instance part of the configured address (or a copy of another destination's)", "a new Destination's Instance is not the instance part of its configured address")
+				return
+			}
+			ex, ok := st.Val.(*ssa.Extract)
+			var split *ssa.Call
+			if ok && ex.Index == 1 {
+				if call, ok := ex.Tuple.(*ssa.Call); ok && calleeName(call.Common()) == nSplit {
+					split = call
+				}
+			}
+			if split == nil {
+				c.Violate(key, c.At(in), "Destination.Instance is overwritten with something that is not the instance part of an address: the hash ring is rebuilt with a different (host, instance) pair on the next route change")
+				return
+			}
+			// the split address
+			var splitAddr ssa.Value
+			for _, r := range *split.Referrers() {
+				if e0, ok := r.(*ssa.Extract); ok && e0.Index == 0 {
+					splitAddr = e0
+				}
+			}
+			// controlled by splitAddr != dest.Addr
+			guarded := false
+			for _, b := range fn.Blocks {
+				ifi, ok := b.Instrs[len(b.Instrs)-1].(*ssa.If)
+				if !ok {
+					continue
+				}
+				cnd, neg := negStrip(ifi.Cond)
+				bo, ok := cnd.(*ssa.BinOp)
+				if !ok || (bo.Op != token.NEQ && bo.Op != token.EQL) {
+					continue
+				}
+				okOps := (bo.X == splitAddr && isFieldLoad(bo.Y, addrF)) || (bo.Y == splitAddr && isFieldLoad(bo.X, addrF))
+				if !okOps || splitAddr == nil {
+					continue
+				}
+				si := 0 // edge on which they differ
+				if (bo.Op == token.EQL) != neg {
+					si = 1
+				}
+				if edgeDominates(b, b.Succs[si], in.Block()) {
+					guarded = true
+				}
+			}
+			// and Addr is stored from the same split
+			paired := false
+			allInstrs(fn, func(x ssa.Instruction) {
+				if s2, ok := x.(*ssa.Store); ok && s2.Block() == in.Block() {
+					if fa2, ok := s2.Addr.(*ssa.FieldAddr); ok && fieldOfAddr(fa2) == addrF && s2.Val == splitAddr {
+						paired = true
+					}
+				}
+			})
+			c.Judge(guarded && paired, key, c.At(in), "only when the split address differs from the current Addr, together with that address", "Destination.Instance can be overwritten on a (re)connect to the unchanged address: the relay loop dials with the stored host:port (which carries no instance), so the configured instance is replaced by \"\" and the next route change rebuilds the hash ring from a different (host, instance) pair — keys move between destinations that did not change")
+		})
+	}
+	if n < 2 {
+		anchorFail("destination: %d stores into Destination.Instance found", n)
+	}
 }
